@@ -114,26 +114,34 @@ def alloc_correspondence(ctx):
 
 
 def inmemory_probe(ctx):
-    """after a call that failed for lack of space, in the SAME session: every block the volume owns (decoder's ownership of the
-    image dumped right after the call) must still be marked allocated in the library's in-memory bitmap - a wrong release in an
-    error path is invisible on disk until the next bitmap write"""
-    import subprocess, os
-    from . import c08
+    """after a call that failed (for lack of space; an undelete that is refused), in the SAME session: every block the volume owns
+    (decoder's ownership of the image dumped right after the call) must still be marked allocated in the library's in-memory
+    bitmap - a wrong release in an error path is invisible on disk until the next bitmap write"""
+    import subprocess, os, shutil
+    from . import c08, undel
     n = 28 if ctx.tier == "quick" else 280
-    jobs = [c08.forced_history(ctx) for _ in range(n)]
+    jobs = []
+    for _ in range(n):
+        L, first, nb, meta = c08.forced_history(ctx)
+        jobs.append((L, nb, meta, "dump $W/img2", "after a call that failed for lack of space"))
+    for _ in range(24 if ctx.tier == "quick" else 300):
+        L, first, nb, meta = undel.history(ctx)
+        # the dump that follows each undelete call
+        for i, l in enumerate(L):
+            if l.startswith("undel ") and i + 2 < len(L) and L[i + 2].startswith("dump "):
+                jobs.append((L, nb, meta, L[i + 2], "after an undelete call (accepted or refused)"))
 
     def one(job):
-        L, first, nb, meta = job
+        L, nb, meta, dumpline, when = job
         L = [l for l in L if l != "spectree"]
-        k = L.index("dump $W/img2")
+        k = L.index(dumpline)
         L1 = L[: k + 1]
         rc, out, err, wd = common.run_script(ctx, "\n".join(L1) + "\n")
-        img = os.path.join(wd, "img2")
+        img = os.path.join(wd, dumpline.split("/")[-1])
         if rc != 0 or not os.path.exists(img):
             return (job, None, None, None)
         r = subprocess.run([ctx.ocaml("adfm"), "decode", img, "0", str(nb), "1"], stdout=subprocess.PIPE, text=True, preexec_fn=common.big_stack)
         ls = r.stdout.splitlines()
-        import shutil
         shutil.rmtree(wd, ignore_errors=True)
         if not ls or not ls[0].startswith("OK"):
             return (job, "undecodable", ls[:1], None)
@@ -145,12 +153,12 @@ def inmemory_probe(ctx):
         bad = [b for i, b in enumerate(owned) if (res2.get(len(L1) + i) or ["?"])[-1] != "ok 0"]
         return (job, "ok", bad, L2)
     for (job, st, bad, L2) in common.pmap(one, jobs):
-        L, first, nb, meta = job
-        ctx.count(("inmemory", meta.get("kind"), meta.get("fail_from_request"), meta.get("flavour")))
+        L, nb, meta, dumpline, when = job
+        ctx.count(("inmemory", meta.get("kind", meta.get("scenario")), meta.get("fail_from_request"), meta.get("flavour"), dumpline))
         ctx.bump("inmemory_bitmap_probe")
         if st == "ok" and bad:
-            ctx.fail("oracle", "a block the volume owns is marked free in the in-memory bitmap after a call that failed for lack of space",
-                     {"meta": meta, "blocks": bad[:8], "script": L2[: L2.index("allocfail 0") + 2] if "allocfail 0" in L2 else L2[:40]},
+            ctx.fail("oracle", "a block the volume owns is marked free in the in-memory bitmap %s" % when,
+                     {"meta": meta, "blocks": bad[:8], "script": L2[: L2.index("allocfail 0") + 2] if "allocfail 0" in L2 else L2[:60]},
                      expected="every owned block allocated", actual="free: %s" % bad[:8])
             if len(ctx.failures) > 3:
                 break
